@@ -119,9 +119,10 @@ def _reaching(cfg, fnode, name, at):
     return out, entry_live
 
 
-def _value_at(cfg, fnode, e, at, depth=3):
-    """Follow a local name to the (value, path) of its unique reaching write."""
-    path = ()
+def _value_at(cfg, fnode, e, at, depth=4):
+    """Follow a local name to (value expression, index path) of its unique
+    reaching binding: the name denotes value[path...]; literal tuples on the
+    right-hand side of a parallel assignment are indexed away."""
     while depth and isinstance(e, ast.Name):
         ws, entry_live = _reaching(cfg, fnode, e.id, at)
         if len(ws) != 1 or entry_live:
@@ -129,12 +130,36 @@ def _value_at(cfg, fnode, e, at, depth=3):
         v, p = _bound(ws[0][1], e.id)
         if v is None:
             break
-        if p:
-            return v, p
+        while p and isinstance(v, (ast.Tuple, ast.List)) and len(v.elts) > p[0] and not any(isinstance(x, ast.Starred) for x in v.elts):
+            v, p = v.elts[p[0]], p[1:]
         at = ws[0][0]
-        e = v
         depth -= 1
-    return e, path
+        if p:
+            v2, p2 = _value_at(cfg, fnode, v, at, depth)
+            return v2, p2 + p
+        e = v
+    return e, ()
+
+def _assigned_to(n, pred):
+    """values a statement assigns to the targets satisfying pred (parallel
+    assignment aware); None for a value the rule cannot pair up"""
+    out = []
+    if isinstance(n, ast.Assign):
+        for t in n.targets:
+            if pred(t):
+                out.append(n.value)
+            elif isinstance(t, (ast.Tuple, ast.List)):
+                for i, el in enumerate(t.elts):
+                    if pred(el):
+                        if isinstance(n.value, (ast.Tuple, ast.List)) and len(n.value.elts) == len(t.elts):
+                            out.append(n.value.elts[i])
+                        else:
+                            out.append(None)
+    elif isinstance(n, ast.AnnAssign) and pred(n.target):
+        out.append(n.value)
+    elif isinstance(n, ast.AugAssign) and pred(n.target):
+        out.append(None)
+    return out
 
 
 def _strip_not(e, truth=True):
